@@ -237,11 +237,15 @@ def shrink_graph(case):
         if "lines" in case:
             c["lines"] = case["lines"][:k] + case["lines"][k + 1:]
         yield c
-    if n > 1 and all(s < n - 1 and t < n - 1 for (_, s, t, _, _) in edges):
-        c = dict(case, n=n - 1, order=[v for v in case["order"] if v != n - 1])
-        if "pos" in case:
-            c["pos"] = case["pos"][:n - 1]
-        yield c
+    used = {x for e in edges for x in (e[1], e[2])}
+    for v in range(n - 1, -1, -1):
+        if v not in used and n > 1:          # drop an isolated node, renumbering the ones above it
+            r = lambda x: x - 1 if x > v else x
+            c = dict(case, n=n - 1, order=[r(x) for x in case["order"] if x != v],
+                     edges=[[i, r(a), r(b), w, o] for (i, a, b, w, o) in edges])
+            if "pos" in case:
+                c["pos"] = case["pos"][:v] + case["pos"][v + 1:]
+            yield c
     if case["order"] != sorted(case["order"]):
         yield dict(case, order=sorted(case["order"]))
     for k, (i, s, t, w, o) in enumerate(edges):
